@@ -165,6 +165,21 @@ PROPS = {
         real_vs_stub=L_REAL,
         assumptions=SIM_ASSUME,
     ),
+    "C03": dict(
+        pkg="cmd/restic", test="TestVerifC03", level="fault_enumeration", quick_s=60, thorough_s=900,
+        text="small generated repositories (1-3 snapshots over changing trees, all formats/compression/pack sizes) get one to three at-rest damages: a "
+             "stored file is deleted, truncated at a generated position, extended, or has one bit flipped at a position stratified over nonce, "
+             "ciphertext and MAC of a blob, the pack header, the header length field, or nonce/ciphertext/MAC of index, snapshot and config files "
+             "and key files; an independent decoder of the intact remainder decides whether a snapshot depends on the damage (snapshot no longer "
+             "fully restorable, snapshot or index file undecodable); then the real `check --read-data` must report an error, and reading every "
+             "snapshot through the real read path must either fail or give exactly the original content",
+        note="one-directional on purpose: damage nothing depends on may or may not be reported; damage sites are sampled (stratified), not "
+             "enumerated byte by byte",
+        design_ref="3 / C03",
+        rule="one run = generated repository x 1-3 damages (file x kind x position); distinct = distinct event-log hash among runs with a fired fault",
+        real_vs_stub=L_REAL,
+        assumptions=SIM_ASSUME,
+    ),
     "C04": dict(
         pkg="cmd/restic", test="TestVerifC04", level="exploration", quick_s=60, thorough_s=900,
         text="a monitor inside the simulated store inspects every file at the instant it is saved (also files deleted again later) during generated "
